@@ -200,6 +200,12 @@ impl<S: Read + Write> Link<S> {
     /// let certificate = link_ssl.get_peer_certificate().unwrap().unwrap();
     /// ```
     pub fn get_peer_certificate(&self) -> RdpResult<Option<Certificate>> {
+        #[cfg(rdp_rs_verif)]
+        {
+            if let Some(der) = verif::peer_certificate() {
+                return Ok(Some(Certificate::from_der(&der)?));
+            }
+        }
         if let Stream::Ssl(stream) = &self.stream {
             Ok(stream.peer_certificate()?)
         }
@@ -217,5 +223,24 @@ impl<S: Read + Write> Link<S> {
     #[cfg(feature = "integration")]
     pub fn get_stream(self) -> Stream<S> {
         self.stream
+    }
+}
+
+
+/// Verification hook: a per-thread peer certificate (DER) that `get_peer_certificate` reports
+/// instead of asking the TLS session, so that the CredSSP exchange can be driven over an
+/// in-memory transport. Compiled only with `--cfg rdp_rs_verif`.
+#[cfg(rdp_rs_verif)]
+pub mod verif {
+    use std::cell::RefCell;
+    thread_local! {
+        static PEER: RefCell<Option<Vec<u8>>> = RefCell::new(None);
+    }
+    /// Set (Some) or clear (None) the preset certificate
+    pub fn preset_peer_certificate(der: Option<&[u8]>) {
+        PEER.with(|p| { *p.borrow_mut() = der.map(|d| d.to_vec()); });
+    }
+    pub fn peer_certificate() -> Option<Vec<u8>> {
+        PEER.with(|p| p.borrow().clone())
     }
 }
